@@ -156,11 +156,15 @@ pub fn run(ctx: &Ctx) -> i32 {
         total.merge(run_generated(ctx, &engine, "generic", || case_strategy(GENERIC, max_ops, cfg_any_strategy()), generic, 2000));
     }
 
+    if d.prop == "C06" {
+        total.merge(run_generated(ctx, &engine, "many-origins", move || many_origins_strategy(40), ctx.cases(240, 20_000), 300));
+    }
     if d.prop == "C05" {
         // idle expiry: real-time leg with 60 ms sleeps on both sides of a 25 ms idle timeout
         let wt = Weights { issue: 10, poll: 20, cancel: 2, dial_ok: 8, dial_fail: 0, hs_ok: 8, hs_fail: 0, release: 8, ready: 8, close: 1, takeover: 0, bg: 10, warm: 14, advance: 0, hold: 2, sleep: 5, h2_pct: 15, alpn_pct: 0, origins: 2 };
         let ectx = Ctx { threads: 16, ..ctx.clone() };
-        total.merge(run_generated(&ectx, &engine, "idle-expiry-real-time", move || case_strategy(wt, 24, cfg_expiry_strategy()), ctx.cases(600, 20_000), 200));
+        total.merge(run_generated(&ectx, &engine, "idle-expiry-real-time", move || case_strategy(wt, 24, cfg_expiry_strategy()), ctx.cases(400, 12_000), 200));
+        total.merge(run_generated(&ectx, &engine, "idle-expiry-scenarios", expiry_scenario_strategy, ctx.cases(400, 12_000), 200));
     }
     finish(
         ctx,
